@@ -87,6 +87,10 @@ def build_call(case):
     elif fault.startswith('len_arr'):           # len_arr<k>: array k one element shorter than the others
         ai = int(fault[-1])
         arrs[ai] = arrs[ai][:-1].copy()
+    elif fault == 'no_layers':
+        types, stat, inc, tops = (), (), (), ()
+    elif fault == 'empty_arrays':               # total_slices = 0
+        arrs = [a[:0].copy() for a in arrs]
     # ---- solve_for
     elif fault == 'solve_list':
         kw['solve_for'] = ['tidal']
@@ -295,7 +299,7 @@ def observe_call(args, kw):
 
 #: faults that leave the five arrays exactly as the no-fault call would pass them (usable in same-array sequences)
 def is_argument_fault(fault):
-    return not (fault.startswith('arr:') or fault.startswith('len_arr') or fault == 'few_slices')
+    return not (fault.startswith('arr:') or fault.startswith('len_arr') or fault in ('few_slices', 'empty_arrays'))
 
 
 def run_one(case):
